@@ -288,6 +288,21 @@ pub struct WorkCase {
 pub struct Work;
 
 pub const PASS_FORMS: usize = 24;
+/// forms that preserve values of one type only (operators with a neutral operand, comparisons whose
+/// branches both give the value back); `X` stands for the recursive call, `B` for the base value
+pub fn typed_forms(ret: u8) -> Vec<&'static str> {
+    let mut v = vec!["(if X .== B then B else B)", "(if X .!= B then B else B)", "(if B .== X then B else B)", "[X .== B, B][1]", "(if ugte(X, B) then B else B)", "(if ult(B, X) then B else B)"];
+    match ret % 8 {
+        0 => v.extend(["(X + 0)", "(0 + X)", "(X - 0)", "(X * 1)", "(1 * X)", "(X / 1)", "(X ^ 1)", "(X % 100)", "(-(-X))", "(if X < 100 then B else B)", "(if X <= 7 then B else B)", "(if X > 100 then B else B)", "(if X >= 7 then B else B)", "(if X == 7 then B else B)", "(if X != 7 then B else B)", "(if 100 .> X then B else B)", "(if X .<= 7 then B else B)", "(if X .>= 7 then B else B)", "(if X .< 100 then B else B)", "([X] + 0)[0]", "(0 + [X])[0]", "([X] + [0])[0]", "max(X, 0)", "min(X, 100)", "sum(X)", "sum([X])", "abs(X)", "(X!) / 720", "(if (X)! > 0 then B else B)"]),
+        1 => v.extend(["(X ?? null)", "(null ?? (X ?? null))", "(if X == null then B else B)"]),
+        2 | 6 => v.extend(["(X + 0)", "(0 + X)", "(X * 1)", "(X ?? 0)", "(X via idf)", "(X where (q => true))", "[...X]", "reverse(reverse(X))", "(if X .<= B then B else B)", "(if len(X) >= 0 then B else B)", "flatten([X])"]),
+        3 => v.extend(["{...X}", "{...X, a: 1}", "(if keys(X) .== [\"a\"] then B else B)", "{a: X.a}", "{a: X[\"a\"]}"]),
+        4 => v.extend(["(X + \"\")", "(\"\" + X)", "(if X < \"t\" then B else B)", "(if X .>= \"s\" then B else B)", "(if X == \"s\" then B else B)", "join([...X], \"\")", "([X] + \"\")[0]", "to_string(X)", "X[0]", "lowercase(X)"]),
+        5 => v.extend(["(X and true)", "(true and X)", "(X or false)", "(false or X)", "(X && true)", "(true && X)", "(X || false)", "(false || X)", "(not not X)", "(!!X)", "(not (not (X)))", "(if X then B else B)", "(if not X then B else B)", "([X] and true)[0]", "(true and [X])[0]", "([X] or [false])[0]", "(if X == true then B else B)"]),
+        _ => v.extend(["(X ?? idf)"]),
+    }
+    v
+}
 
 fn base_value(ret: u8) -> &'static str {
     match ret {
@@ -310,6 +325,10 @@ pub fn work_program(c: &WorkCase, depth: u32) -> String {
         _ => ("f", "f"),
     };
     let pass = |x: &str| -> String {
+        if c.pass as usize >= PASS_FORMS {
+            let forms = typed_forms(c.ret);
+            return forms[(c.pass as usize - PASS_FORMS) % forms.len()].replace('X', x).replace('B', b);
+        }
         match c.pass as usize % PASS_FORMS {
             0 => format!("({} ?? {})", x, b),
             1 => format!("(null ?? {})", x),
@@ -358,8 +377,9 @@ impl Check for Work {
     }
     fn run(&self, c: &WorkCase, ctx: &mut Ctx) -> Outcome {
         let ret = ["number", "null", "list", "record", "string", "boolean", "empty-list", "function"][c.ret as usize % 8];
-        let pass = c.pass as usize % PASS_FORMS;
+        let pass = c.pass as usize;
         ctx.label(&format!("returns-{}", ret));
+        ctx.label(if pass >= PASS_FORMS { "typed-form" } else { "generic-form" });
         ctx.nontrivial(hash_str(&format!("{:?}", (c.ret % 8, pass, c.shape % 4))));
         // calls made by a recursion `depth` levels deep, and its value
         let measure = |depth: u32| -> Result<(usize, String), String> {
@@ -470,7 +490,7 @@ pub fn run(ctx: &mut Ctx) {
     let mut work = Vec::new();
     for shape in 0..4u8 {
         for ret in 0..8u8 {
-            for pass in 0..PASS_FORMS as u8 {
+            for pass in 0..(PASS_FORMS + typed_forms(ret).len()) as u8 {
                 work.push(WorkCase { ret, pass, shape });
             }
         }
